@@ -243,8 +243,12 @@ int main(int argc, char **argv)
 					nlri_len = 1; /* nothing to flip in a zero-length prefix: lengthen it */
 				else
 					nlri[(bit % nlri_len) / 8] ^= 0x80 >> ((bit % nlri_len) % 8);
-			} else if (!strcmp(cf, "nlrilen"))
-				nlri_len ^= 1u << (bit % 3);
+			} else if (!strcmp(cf, "nlrilen")) {
+				int mask = 1 << (bit % 3), maxlen = afi == 1 ? 32 : 128;
+
+				/* always a different, still legal length (a length beyond the family's maximum would be clamped below) */
+				nlri_len = (int)(nlri_len ^ mask) > maxlen ? nlri_len - mask : nlri_len ^ mask;
+			}
 			else if (!strcmp(cf, "ski"))
 				hops[ch].ski[bit % SKI_SIZE] ^= 1u << (bit % 8);
 			else if (!strcmp(cf, "sigder")) {
